@@ -22,6 +22,7 @@
 -/
 import TaffyVerif.Drv.C02
 import TaffyVerif.Drv.TreeParse
+import TaffyVerif.Drv.EVAL
 
 namespace DrvHist
 open Proto Drv
@@ -245,6 +246,8 @@ def handlerC16 : Handler :=
     step := fun s ws =>
       match ws with
       | "cache" :: rest => DrvC02.step s rest
+      -- cost tie: the evaluator's predicted number of body evaluations per node of a fresh pass
+      | "evalgcost" :: _ => (s, (DrvEVAL.step () ws).2)
       | _ => (s, stepC16 ws) }
 def handlerC17 : Handler := { σ := Unit, init := (), step := fun s ws => (s, stepC17 ws) }
 
